@@ -6,7 +6,7 @@ from hypothesis import strategies as st
 from ..core import Result, SubCheck
 from ..refs import tlv as T
 from ..sim import net
-from ..sim.appsim import AppSim
+from ..sim.appsim import AppSim, exc_site
 
 PROPERTY_ID = 'C03'
 RULE = ('Histories (lists of operations, shrunk as one value) over a 3-ary name tree of depth<=3, run against appv2.NDNApp.express '
@@ -76,12 +76,13 @@ def _templates(express, op):
     T1  slow validator outlives the lifetime, the same name is expressed again meanwhile, Data arrives again
     T2  partial satisfaction (mixed CanBePrefix / digest on one name), then a second Data
     T3  cancel, re-express on the same name, late packet
+    T5  the answering Data scheduled (before the Interest is expressed) for the very instant its lifetime ends
     T4  two Interests on one name, one satisfied by a longer-named Data gives up during its validation, then the other's Data"""
     nm = st.lists(st.sampled_from(ALPHA[:2]), min_size=1, max_size=2)
 
     @st.composite
     def t(draw):
-        which = draw(st.sampled_from(['T1', 'T1', 'T2', 'T3', 'T4']))
+        which = draw(st.sampled_from(['T1', 'T1', 'T2', 'T3', 'T4', 'T5']))
         n = draw(nm)
         life = draw(st.sampled_from([5, 50]))
         mode = draw(st.sampled_from(['await', 'task']))
@@ -106,6 +107,14 @@ def _templates(express, op):
                     {'op': 'adv', 'ms': 1},
                     {'op': 'data', 'of': 99, 'ext': draw(st.sampled_from([[], ['a']])), 'mode': mode},
                     {'op': 'data', 'of': 99, 'ext': [], 'mode': mode}]
+        elif which == 'T5':
+            # the answer is due at the very instant the lifetime ends, and its timer was registered first
+            core = [{'op': 'sched_data', 'name': n, 'after': life + draw(st.sampled_from([0, 0, 0, -1, 1]))},
+                    {'op': 'express', 'name': n, 'cbp': draw(st.booleans()), 'digest': 'none', 'life': life, 'vlat': '0', 'verdict': True},
+                    {'op': 'adv', 'ms': draw(st.sampled_from([0, 1]))}] + \
+                   ([{'op': 'express', 'name': n, 'cbp': False, 'digest': 'none', 'life': 4000, 'vlat': '0', 'verdict': True}]
+                    if draw(st.booleans()) else []) + \
+                   [{'op': 'adv', 'ms': life + 30}]
         elif which == 'T4':
             # two Interests on one name; a Data with a longer name satisfies only the CanBePrefix one, which then gives up
             # (deadline or caller) while its validator still runs; the other one's Data arrives afterwards
@@ -245,6 +254,28 @@ def _run(sim, fe, ops, r):
             else:
                 sim.deliver(w, op['mode'])
             trace.append('D')
+        elif k == 'sched_data':
+            # the network will deliver this Data at a fixed instant (its timer is registered NOW, i.e. before the timers of
+            # Interests expressed later: at equal instants it is served first)
+            lst = op['name']
+            if not lst or not alive:
+                continue
+            w = data_for(lst)
+
+            def fire(lst=lst, w=w):
+                if not sim.face.running:
+                    return
+                events.append((sim.vl.now_ms(), 'data', (lst, w)))
+
+                async def _g():
+                    try:
+                        await sim.app.face.callback(6, w)
+                    except Exception as e_:  # noqa
+                        sim.receive_errors.append(exc_site(e_) + f': {e_!r}'[:200])
+                sim.vl.loop.create_task(_g())
+            sim.vl.loop.call_at(sim.vl.clock.t + op['after'] / 1000, fire)
+            flags.add('scheduled-data')
+            trace.append('s')
         elif k == 'nack':
             if not ents or not alive:
                 continue
